@@ -31,7 +31,8 @@ Section FitOps.
   | FFitRWLS (x y sy : list V) (dof : dofarg V) (label : option Z)
   | FFitWTLS (x y ux uy : list V) (dof : dofarg V) (label : option Z) (o : option wtls_oracle)
   | FXfromY (f : nat) (ys : list V) (extra : option V) (x_label y_label : option Z)
-  | FYfromX (f : nat) (x : arg V) (extra : option V) (s_label y_label : option Z).
+  | FYfromX (f : nat) (x : arg V) (extra : option V) (s_label y_label : option Z)
+  | FEnsOf (ks : list key).          (* observation: the ensemble (content) of each of these live Leaf nodes *)
 
   (* a fit object: class, the slots holding a and b, ssr, N *)
   Record fit := mkFit { ft_cls : fitcls; ft_a : nat; ft_b : nat; ft_ssr : V; ft_n : Z }.
@@ -39,7 +40,7 @@ Section FitOps.
 End FitOps.
 
 Arguments mkWO {V}. Arguments WOExn {V}. Arguments FK {V}. Arguments FFitOLS {V}. Arguments FFitWLS {V}. Arguments FFitRWLS {V}.
-Arguments FFitWTLS {V}. Arguments FXfromY {V}. Arguments FYfromX {V}.
+Arguments FFitWTLS {V}. Arguments FXfromY {V}. Arguments FYfromX {V}. Arguments FEnsOf {V}.
 Arguments mkFit {V}. Arguments ft_cls {V}. Arguments ft_a {V}. Arguments ft_b {V}. Arguments ft_ssr {V}. Arguments ft_n {V}.
 Arguments mkF {V}. Arguments fk {V}. Arguments ffits {V}.
 
@@ -253,6 +254,12 @@ Section LineFitA.
         | Some (Some f) => do_y_from_x st f x extra sl yl
         | _ => (mkF (push3 (fk st) SErr SErr SErr) (ffits st), OutExn AttributeError)
         end
+    | FEnsOf ks =>
+        (* no state change, no slot: what `leaf.ensemble` holds now, for each Leaf asked for *)
+        (st, OutList (map (fun k => match assoc (s_leaves (fk st)) k with
+                                    | Some l => out_keys (ens_of N (fk st) l)
+                                    | None => OutExn KeyError
+                                    end) ks))
     end.
 
   Fixpoint frun (st : fstate) (p : list (fop V)) : fstate * list out :=
